@@ -30,4 +30,9 @@ def boot():
     if os.environ.get("TORCHJD_VERIF", "1") == "1":
         from . import contracts
         contracts.install()
+    try:
+        from . import reach
+        reach.install()
+    except Exception:
+        pass
     _booted = True
